@@ -63,7 +63,7 @@ def hRecvProto (j : Json) : Except String Json := do
   let before ← (← getArr j "before").toList.mapM parseSnap
   let after ← (← getArr j "after").toList.mapM parseSnap
   let o := parseSyncOpt ((j.getObjVal? "opt").toOption.getD (jobj []))
-  let need := expectedReqs o before view
+  let need := expectedReqs o before after view
   let evs := parseReceiverLog (← getArr j "log")
   let (ok, at_, s) := accRunR { need := need } 0 evs
   let mut out := [("accept", toJson ok), ("at", toJson at_), ("need", toJson need), ("reqd", toJson s.reqd.reverse),
